@@ -1385,6 +1385,8 @@ main(int argc, char *argv[])
 		} else if (sscanf(ex.cas, "E %d %d %d %d", &k, &rd, &sec, &a) == 4 && k >= 0 && k < NEFMT && rd >= 0 && rd < RC_NDAYS) {
 			const struct rc_day *p = rc_get(rd);
 			run_epoch_ns(k, p->y, p->y, rd, sec, a);
+		} else if (sscanf(ex.cas, "P %d %d %d", &k, &rd, &sec) == 3 && k >= 0 && k < sp_npairs()) {
+			run_stdin_pair(k, rd, sec);
 		} else if (sscanf(ex.cas, "Y %d %d %d", &k, &rd, &sec) == 3 && k >= 0 && k < NSXFMT) {
 			run_stdin_extra(k, rd, sec);
 		} else if (sscanf(ex.cas, "Q %d %d", &rd, &k) == 2 && rd >= 0 && rd < RC_NDAYS) {
@@ -1423,6 +1425,8 @@ main(int argc, char *argv[])
 			"throughout, all days of the windows; N: -f jdn|julian|ldn|lilian|mdn|matlab then -i the same name, dates and date-times (7 times on every day of the windows, every second of "
 			"2012-03-04); E: %%s, %%s%%N, %%s.%%N, %%s %%N on date-times with 0 and 123 ns (parsed second, and printing the parsed value again gives the same text); "
 			"the documented spelling 00 of Sunday for %%w in every enumerated format that has %%w, every Sunday of the windows", NREXTRA);
+		ex_meta("stdin_pairs", "every ordered pair of %d date formats / %d time formats that share their first literal as -i A -i B, lines = every day of 2000 (boundary seconds) printed with A and "
+			"with B, alone and embedded; expected = argument mode (the first of the two the library accepts the text under)", NSPD, NSPT);
 		ex_meta("stdin_extra", "%d formats outside the grammar through the stream mode of dconv: %%T or %%F directly behind another specifier, %%s followed by a literal (years 2000, 1900, 1601, "
 			"1640, 4090: negative 10- and 11-digit epochs; only a different value is judged), calendar names as -i with date-time lines; every business day held as bizda before "
 			"ultimo (NNB) printed with the default format, %%F, ymd, ywd, '%%Y-%%m-%%d %%a', bizda, '%%Y-%%m-%%dB' must name its day", NSXFMT);
@@ -1528,6 +1532,12 @@ main(int argc, char *argv[])
 					run_binding(s, i, bk);
 				}
 			}
+		}
+	}
+	/* two input formats sharing their first literal */
+	for (int k = 0; k < sp_npairs() && !ex_expired(); k++, slice++) {
+		if (ex_mine(slice)) {
+			run_stdin_pair(k, -1, -1);
 		}
 	}
 	/* stdin legs beyond the grammar, bizda-before-ultimo values */
